@@ -187,11 +187,11 @@ def to_seq(v: Term, want: Optional[str] = None) -> Optional[Term]:
         t = v[2]
         if t == "str" or t == "hex" or (isinstance(t, tuple) and t and t[0] == "hexw"):
             return ("seq", "s", (("whole", v),))
-        if t == "bytes":
+        if t == "bytes" or (isinstance(t, tuple) and t and t[0] == "bytesr"):
             return ("seq", "raw", (("hx", v, 0, None),))
         if t == "hexbytes" or (isinstance(t, tuple) and t and t[0] == "hexbw"):
             return ("seq", "b", (("whole", v),))
-    if isinstance(v, tuple) and v and v[0] in ("eattr", "txtterm"):
+    if isinstance(v, tuple) and v and v[0] in ("eattr", "txtterm", "lookup"):
         return ("seq", "s", (("txt", v),))
     return None
 
@@ -255,10 +255,17 @@ def atom_width(a: Term) -> Optional[Lin]:
         return atom_width(a[1])
     if t == "sig":
         return Lin.of(8)
+    if t == "padded":
+        return Lin.of(a[3])
     return None
 
 
 def txt_width(x: Term) -> Optional[int]:
+    if isinstance(x, tuple) and x and x[0] == "lookup":
+        ws = {len(v[1]) for _, v in x[1] if is_c(v) and isinstance(v[1], str)}
+        if len(ws) == 1 and all(is_c(v) and isinstance(v[1], str) for _, v in x[1]):
+            return ws.pop()
+        return None
     if isinstance(x, tuple) and x and x[0] == "eattr":
         alts = x[3] if len(x) > 3 else None
         if alts:
@@ -322,6 +329,9 @@ def int_range(v: Term) -> Optional[Tuple[Optional[int], Optional[int]]]:
             return (0, 16 ** int(w.const) - 1)
         return (0, None)
     if isinstance(v, tuple) and v and v[0] == "len":
+        x = v[1]
+        if isinstance(x, tuple) and x and x[0] == "sym" and isinstance(x[2], tuple) and x[2] and x[2][0] == "bytesr":
+            return (x[2][1], x[2][2])
         return (0, None)
     if isinstance(v, tuple) and v and v[0] == "lin":
         lo: Optional[float] = v[1].const
@@ -344,6 +354,18 @@ def int_range(v: Term) -> Optional[Tuple[Optional[int], Optional[int]]]:
         alts = v[3] if len(v) > 3 else None
         if alts and all(isinstance(a, int) for a in alts):
             return (min(alts), max(alts))
+    if isinstance(v, tuple) and v and v[0] == "app" and v[1] == "int" and len(v) == 3:
+        return int_range(v[2])
+    if isinstance(v, tuple) and v and v[0] == "app" and v[1] == "sum" and len(v) == 3:
+        m = v[2]
+        # sum over a *set* (duplicate-free by type) of an int attribute of distinct enum members
+        if isinstance(m, tuple) and m and m[0] == "map" and isinstance(m[1], tuple) and m[1][0] == "eattr":
+            it = m[2]
+            alts = m[1][3] if len(m[1]) > 3 else None
+            if (alts and all(isinstance(a, int) and a >= 0 for a in alts)
+                    and isinstance(it, tuple) and it[0] == "sym" and isinstance(it[2], tuple) and it[2][0] == "set"
+                    and m[1][1] == ("sym", "$e", it[2][1])):
+                return (0, sum(alts))
     return None
 
 
@@ -540,6 +562,8 @@ def is_hex_atom(a: Term) -> bool:
         return all(ch in HEXDIGITS_ANY for ch in a[1])
     if t in ("hx", "HX", "hbi", "hni", "hexof", "sig"):
         return True
+    if t == "padded":
+        return is_hex_atom(a[2]) and a[4] in HEXDIGITS_ANY
     if t == "alt":
         return all(is_hex_atom(x) for x in a[2][2]) and all(is_hex_atom(x) for x in a[3][2])
     if t in ("upper", "lower"):
@@ -558,6 +582,8 @@ def is_hex_atom(a: Term) -> bool:
         x = a[1]
         if isinstance(x, tuple) and x and x[0] == "eattr" and len(x) > 3 and x[3]:
             return all(all(ch in HEXDIGITS_ANY for ch in str(v)) for v in x[3])
+        if isinstance(x, tuple) and x and x[0] == "lookup":
+            return all(is_c(v) and isinstance(v[1], str) and all(ch in HEXDIGITS_ANY for ch in v[1]) for _, v in x[1])
     return False
 
 
@@ -579,6 +605,8 @@ def _lowercase_known(a: Term) -> bool:
     t = a[0]
     if t in ("hx", "hbi", "hni", "hexof", "sig", "lower"):
         return True
+    if t == "padded":
+        return _lowercase_known(a[2])
     if t == "fmt":
         return not a[1].endswith("X")
     if t == "rep":
@@ -737,7 +765,9 @@ def show_atom(a: Term) -> str:
     if t == "alt":
         return f"alt({show(a[1])} ? {show(a[2])} : {show(a[3])})"
     if t == "sig":
-        return "SIG(<all preceding nibbles>)" if True else ""
+        return "SIG(<all preceding nibbles>)"
+    if t == "padded":
+        return f"{a[1]}({show_atom(a[2])},{a[3]},{a[4]!r})"
     return repr(a)
 
 
